@@ -136,6 +136,8 @@ def leaf_nets(o, seen=None):
 
 
 def net_call(E, net, x):
+    if isinstance(x, C.Anything):
+        return C.Anything(f"{net.name}(...)")
     x = tt(x)
     if not isinstance(x, Tensor) or x.ndim == 0:
         raise PyRaise("ValueError", "network applied to a scalar")
@@ -162,8 +164,11 @@ def net_call(E, net, x):
 def _module(E, obj, name):
     if name == "__call__":
         if is_leaf_net(obj):
-            return Builtin(f"{obj.name}.__call__", lambda E, x, *a, **k: net_call(E, obj, x))
+            return Builtin(f"{obj.name}.__call__", lambda E, x=None, *a, **k: net_call(E, obj, x) if x is not None else C.Anything(f"{obj.name}()"))
         return NotImplemented
+    if name in ("sample", "log_probability", "entropy") and is_leaf_net(obj) and obj.fields.get("$policy_methods"):
+        # frame-level stand-in for a stochastic policy head (C05): pure
+        return Builtin(f"{obj.name}.{name}", lambda E, *a, **k: C.Anything(f"{obj.name}.{name}"))
     if name == "__init__":
         return Builtin("Module.__init__", lambda E, *a, **k: None)
     if name in ("train", "eval"):
@@ -193,6 +198,55 @@ def nnx_vmap(E, fn=None, in_axes=0, out_axes=0, **kw):
     return Builtin("nnx.vmapped", lambda E, *a, **k: vmap_call(E, fn, in_axes, out_axes, a, k))
 
 
+def _is_carry(ax):
+    return isinstance(ax, Opaque) and ax.tag == "nnx.Carry"
+
+
+def frame_scan(E, fn=None, in_axes=0, out_axes=0, **kw):
+    """nnx.scan model used by the FRAME contracts (C05): one generic iteration
+    of the real body; carried objects are the same objects in every iteration,
+    so the set of modules / optimizers an iteration writes is the set the whole
+    scan writes.  Stacked outputs are irrelevant to frames (Anything).
+    Installed per task (shared.lib.funcs override), not globally."""
+    if fn is None:
+        return Builtin("nnx.scan()", lambda E, f: frame_scan(E, f, in_axes=in_axes, out_axes=out_axes))
+
+    def call(E, *args, **k):
+        axes = list(in_axes) if isinstance(in_axes, (tuple, list)) else [in_axes] * len(args)
+        sliced = []
+        for a, ax in zip(args, axes):
+            if _is_carry(ax) or ax is None:
+                sliced.append(a)
+            else:
+                sliced.append(_slice_any(E, a))
+        # one generic iteration of the real body (frames / effects are those of any iteration)
+        out = E.call_value(fn, sliced, dict(k))
+        outs = list(out) if isinstance(out, (tuple, list)) else [out]
+        oaxes = list(out_axes) if isinstance(out_axes, (tuple, list)) else [out_axes] * len(outs)
+        res = []
+        for o, ax in zip(outs, oaxes):
+            res.append(o if _is_carry(ax) else C.Anything("scan-output"))
+        return tuple(res) if isinstance(out, (tuple, list)) else res[0]
+
+    return Builtin("nnx.scanned", call)
+
+
+def _slice_any(E, a):
+    if isinstance(a, C.Anything):
+        return C.Anything("scan-slice")
+    if isinstance(a, (tuple, list)):
+        return type(a)(_slice_any(E, x) for x in a)
+    from ..core import NamedTuple
+
+    if isinstance(a, NamedTuple):
+        return NamedTuple(a.typ, [_slice_any(E, x) for x in a.values])
+    if isinstance(a, Tensor):
+        i = E.st.fresh_sym("scan_i", INT)
+        E.assume(C.band(i >= 0, C.compare("<", i, a.shape[0])))
+        return T.index(a, i)
+    return C.Anything("scan-slice")
+
+
 class Grad:
     """gradient of a differentiated function: for which object, ghost deps"""
 
@@ -205,26 +259,29 @@ class Grad:
 @LIB.fn("flax.nnx.value_and_grad", doc="value_and_grad(f, argnums, has_aux)(*args): (f(*args), d f / d args[argnums]); pure")
 def nnx_value_and_grad(E, fn, argnums=0, has_aux=False, **kw):
     def call(E, *args, **kwargs):
-        if isinstance(argnums, (tuple, list)):
-            raise Unsupported("value_and_grad with several argnums")
-        if argnums >= len(args):
+        nums = list(argnums) if isinstance(argnums, (tuple, list)) else [argnums]
+        if any(n >= len(args) for n in nums):
             raise PyRaise("TypeError", "argnums out of range")
-        wrt = args[argnums]
-        E.st.ghost.setdefault("grad_calls", []).append(dict(fn=fn, wrt=wrt, args=args))
+        wrts = [args[n] for n in nums]
+        E.st.ghost.setdefault("grad_calls", []).append(dict(fn=fn, wrt=wrts[0], wrts=wrts, args=args))
         depth = E.st.ghost.get("in_grad", 0)
         E.st.ghost["in_grad"] = depth + 1
         before = E.snapshot_versions()
         try:
-            out = E.call_value(fn, list(args), dict(kwargs))
+            stub = E.shared.__dict__.get("loss_stub")
+            if stub is not None:
+                out = stub(E, fn, args, kwargs, has_aux)
+            else:
+                out = E.call_value(fn, list(args), dict(kwargs))
         finally:
             E.st.ghost["in_grad"] = depth
         after = E.snapshot_versions()
         if before != after:
             E.st.ghost.setdefault("impure_grad", []).append(getattr(fn, "qualname", str(fn)))
         val = out[0] if has_aux else out
-        g = Grad(wrt, C.gdeps_of(val), val)
-        E.st.ghost["last_grad"] = g
-        return out, g
+        gs = [Grad(w, C.gdeps_of(val), val) for w in wrts]
+        E.st.ghost["last_grad"] = gs[0]
+        return out, (tuple(gs) if isinstance(argnums, (tuple, list)) else gs[0])
 
     return Builtin("value_and_grad()", call)
 
